@@ -26,6 +26,16 @@ Ds == [d \in 1..ND |-> NormDag(Dags[d])]
 Pow2(k) == 2 ^ k
 Bits(n, m) == IF m = -1 THEN None ELSE {k \in 1..n : (m \div Pow2(k - 1)) % 2 = 1}
 
+\* alias resolution (dag.py: alias_to_ids): a node reference is itself; a string is first a TAG (all nodes carrying it),
+\* only then an id; a string that is neither is unknown (ValueError)
+IdOf(k) == "f" \o ToString(k)
+Tagged(G, s) == {k \in 1..G.n : \E q \in 1..Len(G.tagseq[k]) : G.tagseq[k][q] = s}
+ResolveAlias(G, a) == IF a.c = "ref" THEN {a.n}
+                      ELSE IF Tagged(G, a.s) # {} THEN Tagged(G, a.s)
+                      ELSE {k \in 1..G.n : IdOf(k) = a.s}
+ResolveAll(G, A) == IF ~A.given THEN None ELSE UNION {ResolveAlias(G, A.als[q]) : q \in 1..Len(A.als)}
+UnknownAlias(G, A) == A.given /\ \E q \in 1..Len(A.als) : ResolveAlias(G, A.als[q]) = {}
+
 VARIABLES d, j
 Init == d \in 1..ND /\ j \in 0..Len(Dags[d].obs)
 Next == UNCHANGED <<d, j>>
@@ -65,15 +75,20 @@ Row(dd, jj) ==
       n == D.n
       mode == o[1]
       pre == Bits(n, o[2])
-      R == Bits(n, o[3])
-      X == Bits(n, o[4])
-      T == Bits(n, o[5])
-      bogus == o[6] = 1
+      A == Dags[dd].als[jj]
+      \* the selections are what the specification resolves the aliases to (the masks the generator intended are o[3..5])
+      R == ResolveAll(Dags[dd], A[1])
+      X == ResolveAll(Dags[dd], A[2])
+      T == ResolveAll(Dags[dd], A[3])
+      bogus == UnknownAlias(Dags[dd], A[1]) \/ UnknownAlias(Dags[dd], A[2]) \/ UnknownAlias(Dags[dd], A[3])
+      intended == <<Bits(n, o[3]), Bits(n, o[4]), Bits(n, o[5])>>
       off == Half(D, mode, pre, R, X, T, bogus, FALSE, o[7], Bits(n, o[8]), Bits(n, o[9]), Bits(n, o[10]), Bits(n, o[11]), Bits(n, o[12]))
       on == Half(D, mode, pre, R, X, T, bogus, TRUE, o[13], Bits(n, o[14]), Bits(n, o[15]), Bits(n, o[16]), Bits(n, o[17]), Bits(n, o[18]))
       both == Clauses({
         <<o[7] = 0 /\ o[13] = 0 /\ NonDebugPart(D, Bits(n, o[11])) # NonDebugPart(D, Bits(n, o[17])), "C13.value-differs">>,
         <<(o[7] = 0) # (o[13] = 0), "C13.outcome-differs">>,
+        <<~bogus /\ <<R, X, T>> # intended, "WF.alias-resolution">>,
+        <<bogus # (o[6] = 1), "WF.alias-resolution">>,
         <<mode # 2 /\ ~LemmaClosed(D, R, X, T), "LEMMA.closed">>,
         <<mode # 2 /\ ~LemmaSameReading(D, R, X, T), "LEMMA.reading">>})
   IN [off |-> off, on |-> on, both |-> both]
